@@ -28,7 +28,25 @@ PROP = 'C14'
 ALPHABET = ['a', 'b', 'c']
 BEYOND_ALPHABET = ['a', 'ab', 'a_b', 'b', 'E_1']   # textual prefixes of one another on purpose
 HOSTILE = ['a', 'Z', '_', '7', '.', ':', ' ', '\n', 'é', '٣', '-', '\t']
-EXTRA_HOSTILE = ['\r', '\x00', '\u00aa', '\uff21', '\u200b', '\u2167', '$', '0']
+def _lookalikes() -> list:
+    """Non-ASCII characters that some text operation turns into an ASCII letter or digit: case
+    folding (U+0130, U+0131, U+017F, U+212A), compatibility normalisation (full-width forms,
+    ligatures, circled letters) - what a validity test written with a case-insensitive or
+    normalising shortcut lets through."""
+    import unicodedata  # pylint: disable=import-outside-toplevel
+    out = []
+    for code in range(0x80, 0x3000):
+        ch = chr(code)
+        forms = {ch.lower(), ch.upper(), ch.casefold(), unicodedata.normalize('NFKC', ch),
+                 unicodedata.normalize('NFKD', ch)}
+        if any(f and f.isascii() and f.isalnum() for f in forms):
+            out.append(ch)
+    return out
+
+
+LOOKALIKES = _lookalikes()
+EXTRA_HOSTILE = ['\r', '\x00', '\u00aa', '\uff21', '\u200b', '\u2167', '$', '0'] + \
+    ['\u0130', '\u0131', '\u017f', '\u212a']
 ID_CHARS = ['a', 'Z', '_', '7']
 LAYOUTS = ['nested-merged', 'nested-reopened', 'multi-id', 'mixed']
 MAX_WITNESSES = 3          # witness records per mechanism and case
@@ -821,6 +839,8 @@ def hostile_strings(maxlen: int) -> list:
     out = []
     for length in range(0, maxlen + 1):
         out.extend(''.join(t) for t in itertools.product(HOSTILE, repeat=length))
+    for ch in LOOKALIKES:
+        out.extend([ch, 'a' + ch, ch + 'a', 'A_' + ch + '9'])
     return out
 
 
